@@ -220,10 +220,11 @@ let handle (i : string list) (o : string list) =
           (* flood scenario: `arg` more FDT instance ids, each of which may cache up to the FDT object's own
              fixed limit of 1 MiB in datagrams of 60 kB, until the time-out has elapsed and cleanup ran *)
           (* fdthalf: `arg` more FDT instance ids that stay unfinished, each bounded like any FDT object *)
-          let flood = (channel = "fdtflood" || channel = "fdthalf") in
+          let flood = (channel = "fdtflood" || channel = "fdthalf" || channel = "fdtmany") in
           let nflood = (if flood then (try int_of_string (List.nth xsec 3) with _ -> 0) else 0) in
           let cache = if flood then max cache 1048576 else cache in
-          let maxpk = if flood then 60200 else max e_i fdte + 128 in
+          (* fatsym: datagrams of up to 60 kB for an object whose blocks are accounted in symbols of e bytes *)
+          let maxpk = if flood then 60200 else if channel = "fatsym" then 8200 else max e_i fdte + 128 in
           if not (p_C17_heap_cfg (n_of_int (Hashtbl.length gtbl)) (n_of_int (Hashtbl.length ftbl + nflood)) (n_of_int cache)
                     (n_of_int maxpk) (n_of_int (e_i * b_i)) (z_of_string bytes)) then
             c17_fail := Some (Printf.sprintf "P_C17_heap_cfg@ev%d:heap=%s" !nev bytes)
@@ -265,7 +266,10 @@ let handle (i : string list) (o : string list) =
                else fdt_pkts := (fdtid, pid) :: !fdt_pkts);
               let p = { a_toi = n_of_hex toi; a_close_obj = (flags land 1 = 1); a_close_sess = (flags land 2 = 2);
                         a_fdt_id = opt n_of_hex fdtid; a_oti = a_oti; a_cenc = opt cenc_of ce; a_sct = opt z_of_string sct;
-                        a_cp = n_of_hex cp; a_pidbytes = bytes_of_hex pid; a_payload = bytes_of_hex payload;
+                        a_cp = n_of_hex cp; a_pidbytes = bytes_of_hex pid;
+                        a_payload = (if String.length payload > 1 && payload.[0] = 'z'
+                                     then List.init (int_of_n (n_of_hex (String.sub payload 1 (String.length payload - 1)))) (fun _ -> N0)
+                                     else bytes_of_hex payload);
                         a_datalen = n_of_hex datalen } in
               (RvPush (p, now), res)
             | ["U"; res] -> (RvUnparsable, res)
